@@ -60,7 +60,9 @@ KINDS = ['codepoint', 'html-ascii', 'uca-default', 'uca-lang-available', 'uca-la
 FUNCS = ['compare', 'contains', 'starts-with', 'ends-with', 'substring-before', 'substring-after',
          'distinct-values', 'deep-equal', 'max', 'min', 'index-of', 'sort', 'collation-key',
          # operands that make the function fail while the collation is active (error path inside the manager)
-         'max-mixed', 'min-mixed', 'sort-mixed', 'distinct-values-mixed', 'deep-equal-mixed']
+         'max-mixed', 'min-mixed', 'sort-mixed', 'distinct-values-mixed', 'deep-equal-mixed',
+         'nested-index-of', 'nested-max', 'nested-sort', 'nested-deep-equal', 'nested-predicate', 'nested-callback',
+         'nested-distinct-of-sort']
 
 
 # ------------------------------------------------------------------ instrumentation
@@ -68,23 +70,36 @@ class MonitoredLock:
     """drop-in for threading.Lock that records its owner and raises SelfDeadlock instead of blocking forever
     when the owning thread acquires it again (single-threaded workloads)"""
 
-    def __init__(self):
+    def __init__(self, reentrant=False):
         self._lock = threading.Lock()
         self.owner = None
         self.acquisitions = 0
+        self.reentrant = reentrant      # what the replaced lock is: a re-entrant lock lets its owner in again
+        self.depth = 0
+        self.nested = 0
 
     def acquire(self, blocking=True, timeout=-1):
         me = threading.get_ident()
         if self.owner == me:
-            raise SelfDeadlock()
+            if not self.reentrant:
+                raise SelfDeadlock()
+            self.depth += 1
+            self.nested += 1
+            self.acquisitions += 1
+            return True
         ok = self._lock.acquire(blocking, timeout)
         if ok:
             self.owner = me
+            self.depth = 1
             self.acquisitions += 1
         return ok
 
     def release(self):
+        if self.reentrant and self.depth > 1:
+            self.depth -= 1
+            return
         self.owner = None
+        self.depth = 0
         self._lock.release()
 
     def locked(self):
@@ -93,6 +108,7 @@ class MonitoredLock:
     def force_release(self):
         if self._lock.locked():
             self.owner = None
+            self.depth = 0
             self._lock.release()
 
     __enter__ = acquire
@@ -166,7 +182,7 @@ class Instrumented:
         import elementpath.xpath31._xpath31_functions as f31
         self.saved = (coll.locale, coll._locale_collate_lock, xp2.locale, f31.locale)
         self.mods = (xp2, f31)
-        self.lock = MonitoredLock()
+        self.lock = MonitoredLock(reentrant=not isinstance(coll._locale_collate_lock, type(threading.Lock())))
         coll._locale_collate_lock = self.lock
         if self.installed is not None:
             self.fake = FakeLocale(self.installed)
@@ -273,6 +289,22 @@ def collation_expr(fn):
         return "sort(('b', 'A', 'c'), $c)", '3.1'
     if fn == 'collation-key':
         return "string(collation-key('Ab', $c))", '3.1'
+    # a collation function whose operand is produced by another collation function (the operand may be evaluated
+    # lazily, while the outer function already holds the collation)
+    if fn == 'nested-index-of':
+        return "index-of(distinct-values(('a', 'A', 'b'), $c), 'a', $c)", '2.0'
+    if fn == 'nested-max':
+        return "max(distinct-values(('a', 'B', 'c'), $c), $c)", '2.0'
+    if fn == 'nested-sort':
+        return "sort(distinct-values(('b', 'A', 'a'), $c), $c)", '3.1'
+    if fn == 'nested-deep-equal':
+        return "deep-equal(distinct-values(('a', 'b'), $c), index-of(('a', 'b'), 'a', $c), $c)", '2.0'
+    if fn == 'nested-predicate':
+        return "('a', 'b', 'B')[compare(., 'B', $c) = 0][contains(., 'b', $c)]", '2.0'
+    if fn == 'nested-callback':
+        return "for-each(distinct-values(('a', 'A', 'b'), $c), function($x) { compare($x, 'b', $c) })", '3.0'
+    if fn == 'nested-distinct-of-sort':
+        return "distinct-values(sort(('b', 'A', 'a'), $c), $c)", '3.1'
     raise ValueError(fn)
 
 
@@ -291,9 +323,19 @@ def run_history(case, out):
 
             def run():
                 return elementpath.select(None, expr, parser=PARSERS[ver], item=1, variables={'c': uri})
+            held_before = ins.lock.locked()
             try:
                 res = call(run)
             except SelfDeadlock:
+                if not held_before:
+                    # the lock was free when this evaluation began: it took it twice itself (a real deadlock)
+                    out.fail('C19/lock/re-acquired-within-one-evaluation/%s' % ('nested' if fn.startswith('nested') else fn),
+                             'step %d: %s with $c=%r (config %s) acquires the collate lock again while holding it: '
+                             'with the real lock this evaluation never returns' % (idx, expr, uri, case['config']))
+                    ins.lock.force_release()
+                    if ins.fake is not None:
+                        ins.fake.current.pop(real_locale.LC_COLLATE, None)
+                    continue
                 prev = case['history'][idx - 1][0] if idx else 'n/a'
                 out.fail('C19/lock/held-by-earlier-evaluation/after-%s' % lock_cause(case['history'][:idx]),
                          'step %d (%s via %s) found the collate lock still held by this thread; history %s, config %s'
@@ -491,6 +533,11 @@ def payloads(canary, path):
         'internal-after-space': '  \n<!DOCTYPE r [%s]><r>&e;</r>' % ent,
         'internal-after-xmldecl': '<?xml version="1.0" encoding="UTF-8"?><!DOCTYPE r [%s]><r>&e;</r>' % ent,
         'internal-after-xmldecl-and-comment': '<?xml version="1.0" encoding="UTF-8"?><!--x--><!DOCTYPE r [%s]><r>&e;</r>' % ent,
+        # the declaration far from the start of the text (beyond any look-ahead window of a pre-scan)
+        'internal-after-long-comment': '<!--%s--><!DOCTYPE r [%s]><r>&e;</r>' % ('x' * 5000, ent),
+        'internal-after-long-pi': '<?p %s?><!DOCTYPE r [%s]><r>&e;</r>' % ('q' * 70000, ent),
+        'internal-after-many-blanks': '<!--x-->%s<!DOCTYPE r [%s]><r>&e;</r>' % (' \n' * 3000, ent),
+        'entity-used-deep-in-large-document': '<!DOCTYPE r [%s]><r>%s<b>&e;</b></r>' % (ent, '<a>t</a>' * 9000),
         'in-attribute': '<!DOCTYPE r [%s]><r a="&e;"/>' % ent,
         'parameter-entity': '<!DOCTYPE r [<!ENTITY %% p "<!ENTITY e \'%s\'>"> %%p;]><r>&e;</r>' % canary,
         'nested': '<!DOCTYPE r [<!ENTITY a "%s"><!ENTITY b "&a;&a;"><!ENTITY e "&b;&b;">]><r>&e;</r>' % canary,
